@@ -599,7 +599,7 @@ func main() {
 	}
 	nwork, nsteps, perWork := 30, 120, 300
 	if a.Thorough() {
-		nwork, nsteps, perWork = 200, 300, 3000
+		nwork, nsteps, perWork = 200, 300, 2000
 	}
 	if strings.Contains(a.Extra, "search") {
 		nwork *= 3
@@ -626,6 +626,8 @@ func main() {
 			for j := range jobs {
 				img := j.out.stor.ImageAt(j.i, vstor.ImageOpts{Policy: j.pol, UnsyncedFilesVanish: j.van, Rand: rnd(j.ps)})
 				m := checkImage(j.w, j.out.batches, img, j.i, j.us)
+				var discard []*vstor.Stor
+				discard = append(discard, img)
 				nested := -1
 				if m == "" && j.nest {
 					// crash again inside the recovery that just ran on img
@@ -635,6 +637,7 @@ func main() {
 						nested = r2.Intn(nops + 1)
 						img2 := img.ImageAt(nested, vstor.ImageOpts{Policy: vstor.TailPolicy(r2.Intn(int(vstor.NumTailPolicies))), Rand: rnd(j.ps + uint64(t))})
 						m = checkImage(j.w, j.out.batches, img2, j.i, false)
+						discard = append(discard, img2)
 						res.Count("nested_crash_points", 1)
 						if m != "" {
 							m = "after a second crash at op " + fmt.Sprint(nested) + " of the recovery: " + m
@@ -650,6 +653,9 @@ func main() {
 							nontriv = true
 						}
 					}
+				}
+				for _, d := range discard {
+					d.Discard() // a closed DB stays reachable for a second; do not let it pin the image's bytes
 				}
 				res.Eval(fmt.Sprintf("%d/%d/%d/%v", j.w.Seed, j.i, j.pol, j.van), nontriv)
 				res.Count("policy_"+j.pol.String(), 1)
